@@ -330,12 +330,6 @@ Theorem C03_uncertain_display_parse_roundtrip : forall n,
 Proof. exact uncertain_display_parse_roundtrip. Qed.
 Print Assumptions C03_uncertain_display_parse_roundtrip.
 
-Theorem C03_uncertain_root_display_refuted :
-  uncertain_display_root_special && uncertain_from_chars_root_special = false ->
-  uncertain_from_chars None (display_uncertain true []) = Err T_EmptyLabel.
-Proof. exact uncertain_root_display_refuted. Qed.
-Print Assumptions C03_uncertain_root_display_refuted.
-
 Theorem C03_chain3_abs_valid : forall a b c, valid_rel a -> valid_rel b -> valid_abs c ->
   chain3 (wire_len a) (wire_len b) (wire_len c + 1) = Ok tt -> valid_abs (a ++ b ++ c).
 Proof. exact chain3_abs_valid. Qed.
@@ -357,3 +351,9 @@ Theorem C03_name_parse_valid : forall b w, wf_bytes b -> name_parse b = Ok w ->
   exists n rest, valid_abs n /\ w = wire_abs n /\ b = w ++ rest.
 Proof. exact name_parse_valid. Qed.
 Print Assumptions C03_name_parse_valid.
+
+Theorem C03_uncertain_display_parse_roundtrip_full : forall n, valid_abs n ->
+  uncertain_from_chars None (display_uncertain true n) = Ok (true, wire_abs n) /\
+  uncertain_from_chars None (display_uncertain false n) = Ok (false, wire_rel n).
+Proof. exact uncertain_display_parse_roundtrip_full. Qed.
+Print Assumptions C03_uncertain_display_parse_roundtrip_full.
